@@ -28,6 +28,12 @@ SCENARIOS = [
     proto(2, 1, 2, ("quick", "thorough")),
     proto(1, 2, 2, ("quick", "thorough")),
     proto(2, 2, 2, ("quick", "thorough")),
+    dict(proto(2, 1, 1, ("quick", "thorough")), name="C03.c gateway 2x1 R1, lagging tokens", entry="VerifC03c_2x1_R1_Lag",
+         bounds="N=2, M=1, one activation; every token may be descheduled between asking the gateway and waiting for its answer"),
+    dict(proto(2, 2, 1, ("quick", "thorough")), name="C03.c gateway 2x2 R1, lagging tokens", entry="VerifC03c_2x2_R1_Lag",
+         bounds="N=2, M=2, one activation; every token may be descheduled between asking the gateway and waiting for its answer"),
+    dict(proto(3, 2, 1, ("thorough",), K=120), name="C03.c gateway 3x2 R1, lagging tokens", entry="VerifC03c_3x2_R1_Lag",
+         bounds="N=3, M=2, one activation, lagging tokens"),
     proto(3, 2, 2, ("thorough",), K=120),
     proto(2, 3, 2, ("thorough",), K=120),
     proto(3, 1, 2, ("thorough",), K=120),
